@@ -358,13 +358,19 @@ class TrajCheck(Check):
         for k in range(6 if self.tier == "quick" else 40):
             runs["long%d" % k] = random_run(rng, tr=2, variants=variants, maxit=rng.choice([260, 520]), r=1, nconv=1000,
                                             N=rng.randint(3, 5), nrec=rng.randint(3, 8), heavy=False, **over)
+        # hubs: a vertex with hundreds of parallel edges in one layer, followed for a hundred sweeps (whatever is done per
+        # block of edges, or drifts by one edge in a few hundred, shows near the fixed point)
+        for k in range(4 if self.tier == "quick" else 24):
+            runs["hub%d" % k] = random_run(rng, tr=2, variants=variants, maxit=rng.choice([60, 100, 120]), r=1, nconv=1000,
+                                           N=rng.randint(4, 9), nrec=rng.randint(3, 9), K=2, heavy=rng.choice(["hub", "hub", True]),
+                                           ltwt=("u", "u"), **over)
         io, mo = self.correspond("run", [rc.line(c) for c, rc in runs.items()])
         res = []
         for cid, rc in runs.items():
             o = io.get(cid)
             if o and o.get("err") == ["0"]:
                 res.append((cid, rc, o))
-                self.dist(rc.variant() + (":long" if cid.startswith("long") else ""))
+                self.dist(rc.variant() + (":long" if cid.startswith("long") else ":hub" if cid.startswith("hub") else ""))
         return res
 
 
